@@ -20,13 +20,13 @@ Definition WILD : seg := 0%N.              (* the segment text "<*>" *)
 Inductive pseg := PLit (s : seg) | PWild.
 Definition pattern := list pseg.
 
-Inductive kind := KInt | KU32 | KStr | KBool | KInternal
+Inductive kind := KInt | KU32 | KStr | KBool | KList (* []string *) | KInternal
                 | KAny.   (* a leaf of a plugin namespace: in a candidate (a JSON round trip of running) the
                              plugin config is an untyped map, so any value is stored as it is *)
 (* the Go value handed to Set: int, uint32, string, bool *)
-Inductive value := VInt (z : Z) | VU32 (z : Z) | VStr (s : list N) | VBool (b : bool).
+Inductive value := VInt (z : Z) | VU32 (z : Z) | VStr (s : list N) | VBool (b : bool) | VList (l : list (list N)).
 (* a stored scalar; the zero value of every kind is represented by absence *)
-Inductive sval := SInt (z : Z) | SStr (s : list N) | SBool (b : bool).
+Inductive sval := SInt (z : Z) | SStr (s : list N) | SBool (b : bool) | SList (l : list (list N)).
 
 Record hspec := {
   h_pat : pattern;
@@ -49,6 +49,7 @@ Definition sval_eqb (a b : sval) : bool :=
   | SInt x, SInt y => Z.eqb x y
   | SStr x, SStr y => path_eqb x y
   | SBool x, SBool y => Bool.eqb x y
+  | SList x, SList y => (Nat.eqb (length x) (length y)) && forallb (fun p => path_eqb (fst p) (snd p)) (combine x y)
   | _, _ => false
   end.
 Definition osval_eqb (a b : option sval) : bool :=
@@ -173,6 +174,7 @@ Definition native_of (k : kind) (v : value) : option (option sval) :=
   | KU32, VU32 z => Some (norm_int z)
   | KStr, VStr s => Some (norm_str s)
   | KBool, VBool b => Some (norm_bool b)
+  | KList, VList l => Some (match l with [] => None | _ => Some (SList l) end)
   | _, _ => None
   end.
 (* setValueInConfig's final assignment incl. convertValue: None = "cannot convert" *)
